@@ -573,10 +573,13 @@ for _fam, _cls in (('QR', 'QuadraticResidue'), ('SG', 'SchnorrGroupElement')):
 MG_NATIVES += [
     Native('qr_generator', 'mpyc.fingroups.QuadraticResidues', call_mg_generator, ck_mg_generator(True), in_mg_generator('QR', 'safe'),
            'QR: l = 2..16 (thorough up to 160, 768, 1024) and 17 explicit safe primes: p odd prime of the requested size, safe and Blum for l > 2, order (p-1)/2, generator of exactly that order'),
-    Native('qr_generator_nonsafe_p', 'mpyc.fingroups.QuadraticResidues', call_mg_generator, ck_mg_generator(True), in_mg_generator('QR', 'nonsafe'),
-           'QR: 24 explicit odd primes p with (p-1)/2 composite (or 1): order (p-1)/2, generator of exactly that order'),
+    # Explicit moduli that are not safe primes: the module offers a generator of the whole group for safe primes only (module docstring
+    # "quadratic residue groups modulo a safe prime"; _QuadraticResidues: "g is generator if p is a safe prime"; FiniteGroupElement.generator
+    # "generates large subgroup, preferably the entire group").  `order` is the order of the GROUP, no order is declared for the generator:
+    # the contract is generator in the group and generator^order = identity (e.g. QuadraticResidues(13): order 6, generator 3 of order 3).
     Native('qr_generator_weak_nonsafe_p', 'mpyc.fingroups.QuadraticResidues', call_mg_generator, ck_mg_generator(False), in_mg_generator('QR', 'nonsafe'),
-           'QR: the same 24 primes: p as requested, order (p-1)/2, generator in the group, generator^order = identity'),
+           'QR: 24 explicit odd primes p with (p-1)/2 composite (or 1), outside the documented safe-prime domain: p as requested, group order (p-1)/2, generator in the group, '
+           'generator^order = identity (no exact generator order is declared for such p)'),
     Native('sg_generator', 'mpyc.fingroups.SchnorrGroup', call_mg_generator, ck_mg_generator(True), in_mg_generator('SG', None),
            'SG: 21 parameter sets (thorough 27): p, q odd primes of the requested sizes/values, q | p-1, generator of order exactly q'),
 ]
@@ -967,8 +970,14 @@ def call_ec_codec(name, coords, m):
     return dict(M=_raw(E, K, M), Z=_raw(E, K, Z), d=E.decode(M, Z), d2=E.decode(M @ E.identity, _alt(E, Z) or Z), gap=E.gap)
 
 
+EC_EXT_FIELD = ('BN256_twist',)      # curves over GF(p^2)
+
+
 def ck_ec_codec(args, r, exc):
     name, coords, m = args
+    # encode() is offered for curves over prime fields only (EllipticCurvePoint.encode: "TODO: extend this to non-prime fields"; the module's own test
+    # skips encode/decode for BN256_twist): over GF(p^2) the only allowed outcomes are TypeError (not implemented) or a correct round trip
+    if name in EC_EXT_FIELD and isinstance(exc, TypeError): return True
     if exc: return f'unexpected {type(exc).__name__}: {exc}'
     C = o_curve(name, coords)
     Mx, Zx = o_affine(C, coords, r['M']), o_affine(C, coords, r['Z'])
@@ -981,17 +990,24 @@ def ck_ec_codec(args, r, exc):
 
 def call_ec_hash(name, coords, k):
     E = _ec(name, coords); C = o_curve(name, coords)
+    # three representations of k G built from the oracle's affine coordinates (scaled by 1, 3, 2): independent of the group operation
     a = _mk(E, C, coords, o_kG(C, k), 1)
-    b = _pt(E, k)
+    b = _mk(E, C, coords, o_kG(C, k), 3)
     c = _mk(E, C, coords, o_kG(C, k), 2)
-    return dict(eq=(a == b, a == c, b == b.normalize()), hash=(hash(a) == hash(b), hash(a) == hash(c), hash(b) == hash(b.normalize())), size=len({a, b, c}))
+    na, nb, nc = a.normalize(), b.normalize(), c.normalize()
+    b2 = E(b.value, check=False)                         # same representation, other object
+    return dict(eq=(a == b, a == c, b == nb, na == nb), hash=(hash(na) == hash(nb), hash(na) == hash(nc), hash(b) == hash(b2)), size=len({na, nb, nc}))
 
 
 def ck_ec_hash(args, r, exc):
+    """The property does not speak about hash.  __hash__ is documented as hash of (type name, value) "for LRU caching" and __eq__ of the
+    projective systems compares up to scaling, so hash consistency is demanded only where the module documents a canonical representation:
+    normalize() "Convert to unique (affine) representation" -- equal points have equal hashes after normalize() -- and between identical
+    representations."""
     if exc: return f'unexpected {type(exc).__name__}: {exc}'
-    if r['eq'] != (True, True, True): return 'equal points compare unequal'
+    if r['eq'] != (True, True, True, True): return f'representations of one point compare unequal: {r["eq"]}'
     if r['hash'] != (True, True, True) or r['size'] != 1:
-        return f'a == b but hash(a) != hash(b) (representations: normalised / via repeat / scaled): hash equal = {r["hash"]}, set size {r["size"]}'
+        return f'equal points, normalize()d (documented unique representation): hashes equal = {r["hash"]}, set size {r["size"]}'
     return True
 
 
@@ -1108,7 +1124,8 @@ def in_ec_hash(tier):
 
 
 EC_NATIVES.append(Native('ec_hash', 'mpyc.fingroups.EllipticCurvePoint.__hash__/__eq__', call_ec_hash, ck_ec_hash, in_ec_hash,
-                         'a == b implies hash(a) == hash(b) for three representations (normalised, through repeat, scaled) of k G, 6 values of k, every curve x coordinate system (affine systems first)'))
+                         'three scaled representations (factors 1, 3, 2, built from own affine coordinates) of k G, 6 values of k, every curve x coordinate system (affine systems first): '
+                         'they compare equal, and after normalize() (the documented unique representation) they have equal hashes and collapse in a set; identical representations hash equally'))
 
 
 # ================================================================= hyperelliptic curves: own polynomial arithmetic over GF(p)
@@ -1966,8 +1983,10 @@ CL_NATIVES = [
     Native('cl_generator', 'mpyc.fingroups.ClassGroup', call_cl_generator, ck_cl_generator(False), in_cl_generator,
            'every parameter set: discriminant as requested (negative prime, 1 mod 4, bit length), identity principal, generator a reduced form, declared order = class number by exhaustive '
            'count (|D| < 2^22), generator^order = identity (module and own composition)'),
-    Native('cl_generator_exact', 'mpyc.fingroups.ClassGroup', call_cl_generator, ck_cl_generator(True), in_cl_generator,
-           'every parameter set with a declared order: the generator has exactly the declared order (g^(order/r) != identity for every prime r | order)'),
+    # No exact-order obligation for class groups: `order` is the class number of the GROUP (declared only for |D| < 2^24, else None = "unknown"); no order
+    # is declared for `generator`, which by _ClassGroup generates a subgroup ("We use the (sub)group generated by g", "order of g around sqrt(-D/4)") and
+    # is the identity ("trivial generator") when D != 1 mod 8, e.g. ClassGroup(Delta=-83): order 3, generator (1, 1, 21).  "The generator has the declared
+    # order" therefore reads generator^order = identity wherever an order is declared: cl_generator above.
     Native('cl_codec', 'mpyc.fingroups.ClassGroupForm.encode/decode', call_cl_codec, ck_cl_codec, in_cl_codec,
            'every parameter set: m = 0..39 (399), boundary of (m+1) gap <= sqrt(|D|)/2 (AssertionError beyond, as documented), random m: decode(encode(m)) == m, encoded forms reduced, '
            'ValueError only when no encoding exists'),
@@ -1977,7 +1996,8 @@ CL_NATIVES = [
 
 EC_NATIVES.append(Native('ec_codec:BN256_twist', "mpyc.fingroups.EllipticCurve('BN256_twist') encode/decode", call_ec_codec, ck_ec_codec,
                          lambda tier: (a for co in EC_COORDS['BN256_twist'] for a in in_ec_codec('BN256_twist', co)(tier)),
-                         'curve over GF(p^2), all three coordinate systems: decode(encode(m)) == m for m = 0..39 (399), large and random m'))
+                         'curve over GF(p^2), all three coordinate systems, m = 0..39 (399), large and random m: encode is documented as not (yet) available over non-prime '
+                         'fields: it raises TypeError, or else decode(encode(m)) == m with encoded points on the curve (no silent wrong answer)'))
 
 
 # ================================================================= registry
